@@ -197,6 +197,20 @@ def r2_conflict_table(ctx):
             made = sources(cx, {"l": 0, "p": []}, VP)
             pd = made[0] if len(made) == 1 else pd
         okd = pn.root_local() == node and pn.path == ["edges"] and pd.kind() == "agg" and pd.root[2].get("adt") == "router::HttpRouterEdges" and pd.root[2].get("variant") == edge
+        if gt["callee"].endswith("Option::<T>::insert"):
+            # `Option::insert` overwrites: it creates the edge "only when none exists" only under a test that the slot is empty
+            # (added after adversary change C02-E: get_or_insert -> insert silently replaced the node's existing edges)
+            def _on_edges(op):
+                q = access_path(ins, op, VP)
+                return q.root_local() == node and q.path == ["edges"]
+            nones = [("call", b) for b, t2 in ins.live_calls(r"option::Option::<T>::is_none$") if _on_edges(t2["args"][0])]
+            somes = [("call", b) for b, t2 in ins.live_calls(r"option::Option::<T>::is_some$") if _on_edges(t2["args"][0])]
+            guarded = bool(nones or somes) and ins.guarded_by(gbb, atoms_true=nones, atoms_false=somes)[0]
+            if not guarded:
+                for sbb2, info2, tg2 in enum_switches(ins, r"^std::option::Option$"):
+                    if _on_edges(info2["place"]) and tg2.get("None") is not None and ins.edge_dominates(sbb2, tg2["None"], gbb):
+                        guarded = True
+            okd = okd and guarded
         ctx.check(R, "%s:creates-%s-only-when-no-edge-exists" % (seg, edge), okd, "get_or_insert(%r, %s)" % (pn, (pd.root[2].get("variant") if pd.kind() == "agg" else pd)), (ins, gbb))
         if pd.kind() == "agg" and edge != "Literals" and len(pd.root[2]["ops"]) == 2:
             g_, pname = resolve_path(ctx.ds, cx, pd.root[2]["ops"][0], VP)
